@@ -397,6 +397,95 @@ def defines():
             yield "%s=%s" % (esc(n.encode("latin-1")), esc(b.encode("latin-1"))), (n + "=" + b).encode("latin-1")
 
 
+# ------------------------------------------------------------------ macro cycles
+# Definition sets whose replacement lists refer to each other in every directed cycle shape of
+# length 1..3 (object-like, function-like, mixed, a tail leading into a cycle), each used in every
+# context in which the preprocessor expands text: as tokens (expand_manifest, guarded per input
+# file) and as a string (expand_manifests with its Ignores set: #if/#elif, the body of a later
+# #define, an #include operand, macro arguments, operands of # and ##), optionally with one
+# definition of the cycle given by -D.
+def _perms(xs):
+    return [list(p) for p in itertools.permutations(xs)]
+
+
+def cycle_shapes():
+    """[(name, [definition lines], entry use expression, a defined name, [(dopt, line index)])]
+    The last element lists, per definition that can be moved to the command line, the -D text."""
+    out = []
+
+    def obj(n, body):
+        return "#define %s %s" % (n, body)
+
+    def add(name, lines, use, guard, dopts=()):
+        out.append((name, lines, use, guard, list(dopts)))
+    add("o1", [obj("A", "A")], "A", "A", [("A=A", 0)])
+    add("o1+", [obj("A", "(A + 1)")], "A", "A", [("A=(A + 1)", 0)])
+    add("f1", ["#define F(x) F(x)"], "F(1)", "F", [("F(x)=F(x)", 0)])
+    for form, b in (("", "%s"), ("+", "(%s + 1)")):
+        for i, perm in enumerate(_perms([("A", "B"), ("B", "A")])):
+            lines = [obj(n, b % t) for n, t in perm]
+            add("o2%s.%d" % (form, i), lines, "A", "A", [("%s=%s" % (perm[0][0], b % perm[0][1]), 0)])
+        for i, perm in enumerate(_perms([("A", "B"), ("B", "C"), ("C", "A")])):
+            lines = [obj(n, b % t) for n, t in perm]
+            add("o3%s.%d" % (form, i), lines, "A", "A", [("%s=%s" % (perm[0][0], b % perm[0][1]), 0)])
+    for i, perm in enumerate(_perms([("T", "A"), ("A", "B"), ("B", "A")])):
+        add("tail.%d" % i, [obj(n, t) for n, t in perm], "T", "T",
+            [("%s=%s" % (perm[0][0], perm[0][1]), 0)])
+    for i, perm in enumerate(_perms([("F", "G"), ("G", "F")])):
+        add("f2.%d" % i, ["#define %s(x) %s(x)" % (n, t) for n, t in perm], "F(1)", "F",
+            [("%s(x)=%s(x)" % (perm[0][0], perm[0][1]), 0)])
+    for i, perm in enumerate(_perms([("F", "G"), ("G", "H"), ("H", "F")])):
+        add("f3.%d" % i, ["#define %s(x) %s(x)" % (n, t) for n, t in perm], "F(1)", "F",
+            [("%s(x)=%s(x)" % (perm[0][0], perm[0][1]), 0)])
+    mixed = [
+        ("m-of", ["#define A F(1)", "#define F(x) A"], "A"),
+        ("m-fo", ["#define F(x) A", "#define A F(1)"], "F(1)"),
+        ("m-ofx", ["#define A F(A)", "#define F(x) x"], "A"),
+        ("m-arg", ["#define A B", "#define B F(A)", "#define F(x) x"], "A"),
+        ("m-name", ["#define A F", "#define F(x) A(x)"], "A(1)"),
+        ("m-fof", ["#define F(x) A", "#define A G(2)", "#define G(x) F(x)"], "F(1)"),
+        ("m-paste", ["#define A B", "#define B P(A, )", "#define P(x, y) x##y"], "A"),
+        ("m-str", ["#define A B", "#define B S(A) A", "#define S(x) #x"], "A"),
+    ]
+    for name, lines, use in mixed:
+        first = lines[0][len("#define "):]
+        n, _, body = first.partition(" ")
+        add(name, lines, use, "A", [("%s=%s" % (n, body), 0)])
+    return out
+
+
+CYCLE_CONTEXTS = [
+    ("decl", "int v = %(u)s;"),
+    ("if", "#if %(u)s\nint y;\n#else\nint n;\n#endif"),
+    ("elif", "#if 0\nint n;\n#elif %(u)s\nint y;\n#endif"),
+    ("ifdef-if", "#ifdef %(g)s\n#if %(u)s\nint y;\n#endif\n#endif"),
+    ("ifdef", "#ifdef %(g)s\nint y;\n#endif"),
+    ("define", "#define Z (%(u)s + 1)\nint x;"),
+    ("define-code", "#define Z (%(u)s + 1)\nint v = Z;"),
+    ("define-if", "#define Z (%(u)s + 1)\n#if Z\nint y;\n#endif"),
+    ("include", "#include %(u)s\nint x;"),
+    ("arg-code", "#define ID(x) x\nint v = ID(%(u)s);"),
+    ("arg-if", "#define ID(x) x\n#if ID(%(u)s)\nint y;\n#endif"),
+    ("arg-nested", "#define ID(x) x\n#define ID2(x) ID(x)\n#if ID2(ID(%(u)s))\nint y;\n#endif\nint v = ID2(%(u)s);"),
+    ("stringify", "#define S(x) #x\n#define XS(x) S(x)\nconst char *s = S(%(u)s);\nconst char *t = XS(%(u)s);"),
+    ("paste", "#define P(x, y) x##y\n#define XP(x, y) P(x, y)\nint P(%(u)s, 1);\nint XP(%(u)s, 2);\n#if XP(%(u)s, )\nint y;\n#endif"),
+    ("has-include", "#if __has_include(%(u)s)\nint y;\n#endif"),
+    ("undef-redefine", "#undef %(g)s\n#define %(g)s %(u)s\n#if %(g)s\nint y;\n#endif\nint v = %(g)s;"),
+]
+
+
+def cycles():
+    """(label, dopt or None, source bytes)"""
+    for name, lines, use, guard, dopts in cycle_shapes():
+        for cname, tmpl in CYCLE_CONTEXTS:
+            ctx = tmpl.replace("\\n", "\n") % {"u": use, "g": guard}
+            yield "%s|%s" % (name, cname), None, ("\n".join(lines) + "\n" + ctx + "\n").encode("latin-1")
+            for dopt, idx in dopts:
+                rest = [l for i, l in enumerate(lines) if i != idx]
+                yield ("%s|%s|-D%s" % (name, cname, dopt), dopt.encode("latin-1"),
+                       ("\n".join(rest + [ctx]) + "\n").encode("latin-1"))
+
+
 # ------------------------------------------------------------------ include (vi)
 INC_MAIN = b"#include \"inc.h\"\nint after_include;\n"
 INC_MAIN2 = b"#define A 1\n#if A\n#include \"inc.h\"\n#endif\nint after_include = A;\n"
